@@ -53,29 +53,27 @@ theorem removeLoop (refs : List Node) (l : Node) (f : Edge → Graph → Except 
         simp [he, this]
 
 /-- what the visit of one node keeps -/
-def keepAt (eqs : List Eqn) (dummies : Eqn → List Nat) (n : Node) (ed : Edge) : Bool :=
+def keepAt (eqs : List Eqn) (n : Node) (ed : Edge) : Bool :=
   match eqnOf eqs n with
   | none => true
-  | some e => (dummies e).isEmpty || !(ed.2 == e.lhs && !(e.refsNum.contains ed.1))
+  | some e => !e.hasQ || !(ed.2 == e.lhs && !(e.refsNum.contains ed.1))
 
 /-- the outer loop `for node in graph.nodes` -/
-theorem nodeLoop (eqs : List Eqn) (dummies : Eqn → List Nat) (f : Node → Graph → Except PyErr (ForInStep Graph))
-    (hf : ∀ n G, f n G = .ok (.yield ⟨G.nodes, G.edges.filter (keepAt eqs dummies n)⟩)) :
+theorem nodeLoop (eqs : List Eqn) (f : Node → Graph → Except PyErr (ForInStep Graph))
+    (hf : ∀ n G, f n G = .ok (.yield ⟨G.nodes, G.edges.filter (keepAt eqs n)⟩)) :
     ∀ (ns : List Node) (G : Graph),
-      forIn ns G f = .ok ⟨G.nodes, G.edges.filter (fun ed => ns.all (fun n => keepAt eqs dummies n ed))⟩
+      forIn ns G f = .ok ⟨G.nodes, G.edges.filter (fun ed => ns.all (fun n => keepAt eqs n ed))⟩
   | [], G => by simp [pure, Except.pure, graph_eta_true]
   | n :: ns, G => by
     rw [List.forIn_cons, hf]
-    simp only [bind, Except.bind, nodeLoop eqs dummies f hf ns, List.filter_filter, List.all_cons]
+    simp only [bind, Except.bind, nodeLoop eqs f hf ns, List.filter_filter, List.all_cons]
     congr 2
     apply List.filter_congr
     intro ed _
     rw [Bool.and_comm]
 
-theorem keep_all_eq (eqs : List Eqn) (dummies : Eqn → List Nat) (g : Graph) (ed : Edge)
-    (hT : ed.2 ∈ g.nodes)
-    (hD : ∀ e, eqnOf eqs ed.2 = some e → (dummies e).isEmpty = true → ed.1 ∈ e.refsNum) :
-    (g.nodes.all fun n => keepAt eqs dummies n ed) = keepEdge eqs ed := by
+theorem keep_all_eq (eqs : List Eqn) (g : Graph) (ed : Edge) (hT : ed.2 ∈ g.nodes) :
+    (g.nodes.all fun n => keepAt eqs n ed) = keepEdge eqs ed := by
   unfold keepEdge
   cases hq : eqnOf eqs ed.2 with
   | none =>
@@ -89,48 +87,46 @@ theorem keep_all_eq (eqs : List Eqn) (dummies : Eqn → List Nat) (g : Graph) (e
         intro h; rw [eqnOf_lhs hn] at h; rw [h, hn] at hq; cases hq
       simp [this]
   | some q =>
-    by_cases hr : ed.1 ∈ q.refsNum
-    · simp only [hr, decide_true, List.all_eq_true]
+    by_cases hr : (!q.hasQ || decide (ed.1 ∈ q.refsNum)) = true
+    · simp only [hr, List.all_eq_true]
       intro n _
       unfold keepAt
       cases hn : eqnOf eqs n with
       | none => rfl
       | some e =>
         by_cases h : ed.2 = e.lhs
-        · rw [eqnOf_lhs hn] at h; rw [h, hn] at hq; cases hq; simp [hr]
+        · rw [eqnOf_lhs hn] at h; rw [h, hn] at hq; cases hq
+          have hr2 : q.hasQ = false ∨ ed.1 ∈ q.refsNum := by simpa using hr
+          rcases hr2 with h2 | h2 <;> simp [h2]
         · simp [h]
-    · simp only [hr, decide_false]
+    · have hr' : (!q.hasQ || decide (ed.1 ∈ q.refsNum)) = false := by simpa using hr
+      simp only [hr']
       rw [List.all_eq_false]
       refine ⟨ed.2, hT, ?_⟩
-      have hne : (dummies q).isEmpty = false := by
-        cases hd : (dummies q).isEmpty with
-        | false => rfl
-        | true => exact absurd (hD q hq hd) hr
-      simp [keepAt, hq, hne, eqnOf_lhs hq, hr]
+      simp only [Bool.or_eq_false_iff, Bool.not_eq_false', decide_eq_false_iff_not] at hr'
+      simp [keepAt, hq, eqnOf_lhs hq, hr'.1, hr'.2]
 
 /-- **Tie of `Model.graph_with_sympy_numbers`** (no cached value): the definition generated from model.py removes from
-    the built graph exactly the edges `C09.stripGraph` removes, and caches the result.
+    the graph exactly the edges `C09.stripGraph` removes, and caches the result — for ALL equation lists and every
+    graph whose edges point to nodes (`hT`: true of every graph `C09.buildGraph` returns, `GraphSpec.wf`; python walks
+    `graph.nodes`, so an edge into a non-node would never be visited).
 
-    Domain: `hT` every edge of the built graph points to a node (true of every graph `C09.buildGraph` returns:
-    `GraphSpec.wf`); `hD` an in-edge of an equation WITHOUT `Quantity` objects is still referenced "after substitution"
-    (python does not look at such an equation at all; `refsNum` is a model INPUT observed from sympy, and for such an
-    equation the harness observes `refsNum = refs`). Outside this domain the model removes edges python keeps. -/
-theorem graphNum_tie (eqs : List Eqn) (dummies : Eqn → List Nat) (g : Graph)
-    (hT : ∀ ed ∈ g.edges, ed.2 ∈ g.nodes)
-    (hD : ∀ ed ∈ g.edges, ∀ e, eqnOf eqs ed.2 = some e → (dummies e).isEmpty = true → ed.1 ∈ e.refsNum) :
-    GraphNum.graphWithSympyNumbers (numView eqs dummies (.ok g)) none
+    The guard `if subs_dict:` of the source is the model's `Eqn.hasQ` in `C09.keepEdge`: an equation without a
+    `Quantity` keeps all its in-edges in the code and in the model alike, so no condition on the model input
+    `refsNum` is left (it used to be the hypothesis `hD`). -/
+theorem graphNum_tie (eqs : List Eqn) (g : Graph) (hT : ∀ ed ∈ g.edges, ed.2 ∈ g.nodes) :
+    GraphNum.graphWithSympyNumbers (numView eqs (.ok g)) none
       = .ok (stripGraph eqs g, some (stripGraph eqs g)) := by
   unfold GraphNum.graphWithSympyNumbers numView
   simp only [bind, Except.bind, pure, Except.pure, Py.truthy_list]
-  rw [nodeLoop eqs dummies _ (fun n G => by
+  rw [nodeLoop eqs _ (fun n G => by
     unfold keepAt
     by_cases hnone : eqnOf eqs n = none
     · simp only [hnone, graph_eta_true, Option.isNone_none, if_true]
     · obtain ⟨e, he⟩ := Option.ne_none_iff_exists'.mp hnone
-      simp only [he, Option.isNone_some, Bool.false_eq_true, if_false, theEqn_some]
-      by_cases hd : (dummies e).isEmpty = true
-      · simp [hd, graph_eta_true]
-      · simp only [hd, Bool.not_false, if_true, Bool.false_or]
+      simp only [he, Option.isNone_some, Bool.false_eq_true, if_false, theEqn_some, quantityAtoms_isEmpty]
+      by_cases hd : e.hasQ = true
+      · simp only [hd, Bool.not_true, Bool.not_false, if_true, Bool.false_or]
         rw [removeLoop e.refsNum e.lhs _ (fun ed G' => by
           simp only [Py.isIn]
           by_cases hr : ed.1 ∈ e.refsNum <;> simp [hr])]
@@ -141,35 +137,25 @@ theorem graphNum_tie (eqs : List Eqn) (dummies : Eqn → List Nat) (g : Graph)
           simp [nxInEdges, hed, beq_iff_eq]
           by_cases h1 : ed.2 = e.lhs <;> simp [h1]
         · intro ed hed
-          simpa [nxInEdges] using (List.mem_filter.mp hed).2)]
+          simpa [nxInEdges] using (List.mem_filter.mp hed).2
+      · have hd' : e.hasQ = false := by simpa using hd
+        simp [hd', graph_eta_true])]
   simp only [Option.isSome_none, Bool.false_eq_true, if_false, stripGraph]
-  have : List.filter (fun ed => g.nodes.all fun n => keepAt eqs dummies n ed) g.edges
+  have : List.filter (fun ed => g.nodes.all fun n => keepAt eqs n ed) g.edges
       = List.filter (keepEdge eqs) g.edges := by
     apply List.filter_congr
     intro ed hed
-    exact keep_all_eq eqs dummies g ed (hT ed hed) (hD ed hed)
+    exact keep_all_eq eqs g ed (hT ed hed)
   rw [this]
 
-/-- The same on the graph `Model.graph` builds: the domain conditions reduce to one fact about sympy - an equation
-    without `Quantity` objects keeps its references (`xreplace` with the empty dict is the identity). -/
-theorem graphNum_tie_built (key : Node → String) (eqs : List Eqn) (dummies : Eqn → List Nat) (g : Graph)
-    (hb : buildGraph key eqs = .ok g)
-    (hS : ∀ e ∈ eqs, (dummies e).isEmpty = true → ∀ r ∈ e.refs, r ∈ e.refsNum) :
-    GraphNum.graphWithSympyNumbers (numView eqs dummies (.ok g)) none
+/-- The same on the graph `Model.graph` builds: no hypothesis at all. -/
+theorem graphNum_tie_built (key : Node → String) (eqs : List Eqn) (g : Graph) (hb : buildGraph key eqs = .ok g) :
+    GraphNum.graphWithSympyNumbers (numView eqs (.ok g)) none
       = .ok (stripGraph eqs g, some (stripGraph eqs g)) := by
-  obtain ⟨hv, hs⟩ := buildGraph_valid hb
+  obtain ⟨_, hs⟩ := buildGraph_valid hb
   apply graphNum_tie
-  · rintro ⟨u, v⟩ hed
-    exact hs.wf.tgt u v hed
-  · rintro ⟨u, v⟩ hed e he hd
-    obtain ⟨e', he', hl, hu⟩ := (hs.edges u v).mp hed
-    have := eqnOf_of_mem hv.lhsNodup he'
-    rw [hl] at this
-    simp only at he
-    rw [this] at he
-    have hee : e' = e := Option.some.inj he
-    subst hee
-    exact hS _ he' hd u hu
+  rintro ⟨u, v⟩ hed
+  exact hs.wf.tgt u v hed
 
 /-- a cached value is returned as it is, and stays -/
 theorem graphNum_cached (v : NumView) (c : Graph) :
@@ -178,8 +164,8 @@ theorem graphNum_cached (v : NumView) (c : Graph) :
   simp [pure, Except.pure]
 
 /-- an exception raised by `self.graph` propagates -/
-theorem graphNum_error (eqs : List Eqn) (dummies : Eqn → List Nat) (e : PyErr) :
-    GraphNum.graphWithSympyNumbers (numView eqs dummies (.error e)) none = .error e := by
+theorem graphNum_error (eqs : List Eqn) (e : PyErr) :
+    GraphNum.graphWithSympyNumbers (numView eqs (.error e)) none = .error e := by
   unfold GraphNum.graphWithSympyNumbers numView
   simp [bind, Except.bind]
 
